@@ -3,7 +3,7 @@ from tools.krun import Harness
 from tools.extract import Unit, Rw
 
 PROPERTY = "C16"
-PRELUDE = ["../common/base.rs", "lemmas.rs", "config_stubs.rs", "repair_stubs.rs"]
+PRELUDE = ["../common/base.rs", "lemmas.rs", "config_stubs.rs", "repair_stubs.rs", "warmup_stubs.rs"]
 CO = "crates/core/src/commands/config.rs"
 R_DISCARD = Rw(r"(?m)^(\s*)_ = ", r"\1let _ = ", regex=True, count=None, why="`_ = e;` -> `let _ = e;`")
 UNITS = [
@@ -103,6 +103,40 @@ UNITS += [
 ]
 M = "backend::hotcold::verif_kani::"
 HC = "backend::hotcold::HotColdBackend::"
+# ---- warm-up before reading (call-site ordering)
+RST = "crates/core/src/commands/restore.rs"
+CHK = "crates/core/src/commands/check.rs"
+UNITS += [
+    Unit(name="restore_warms_up_first", file=RST, kind="block", within="pub(crate) fn restore_repository<S: IndexedTree>(",
+         anchor="@body", block_end="@fn_end",
+         block_sig="fn restore_warms_up_first(file_infos: RestorePlanW, repo: &VRepoW, opts: RestoreOptionsW, node_streamer: NodeStreamW, dest: &VDestW, w: &mut WarmWorld) -> (r: RusticResult<()>)",
+         block_tail="",
+         functions=["commands::restore::restore_repository (warm-up of the needed packs, then the content restore, then metadata)"],
+         rewrites=[
+             Rw("repo.warm_up_wait(file_infos.to_packs().into_iter())?;", "repo.vwarm_up_wait(file_infos.to_packs(), w)?;", why="Repository::warm_up_wait -> typestate stub"),
+             Rw("restore_contents(", "vrestore_contents(", why="restore_contents (thread pool) -> effectful stub: PRECONDITION 'packs warmed up'"),
+             Rw("opts.sparse.unwrap_or_default(),\n    )?;", "vsparse_or_default(opts.sparse), w,\n    )?;", why="Option::unwrap_or_default -> stub; typestate argument"),
+             Rw("restore_metadata(node_streamer, &file_infos.hardlink_candidates, opts, dest)?;", "vrestore_metadata(node_streamer, &file_infos.hardlink_candidates, opts, dest)?;", why="metadata pass -> stub"),
+         ],
+         contract="\n    // (implicit obligation: the packs are warmed up before restore_contents reads them)\n"),
+    Unit(name="check_read_data_warms_up_first", file=CHK, kind="block", within="pub(crate) fn check_repository<S: Open>(",
+         anchor="let packs = opts.read_data_subset.apply(packs);", block_end="        p.finish();\n    }\n\n    Ok(collector.into_check_results())",
+         block_sig="fn check_read_data_warms_up_first(repo: &VRepoW, packs: Vec<IndexPackW>, w: &mut WarmWorld) -> (r: RusticResult<()>)",
+         block_tail="        Ok(())",
+         functions=["commands::check::check_repository (read-data branch: warm-up of the selected packs, then the full reads)"],
+         rewrites=[
+             Rw("let packs = opts.read_data_subset.apply(packs);", "let packs = vapply_subset(packs);", why="ReadSubsetOption::apply (selection of the packs to read) -> stub"),
+             Rw("repo.warm_up_wait(packs.iter().map(|pack| pack.id))?;", "repo.vwarm_up_wait(vpack_ids(&packs), w)?;", why="Repository::warm_up_wait over the ids of the selected packs -> typestate stub"),
+             Rw(r"let total_pack_size = .*?p\.set_length\(total_pack_size\);\n", "\n\n\n", regex=True, why="ELIDED: progress bar set-up (UI only)"),
+             Rw(r"packs\.into_par_iter\(\)\.for_each\(\|pack\| \{.*?\n        \}\);", "vread_and_check_packs(packs, w);", regex=True, why="rayon loop reading every selected pack (be.read_full + check_pack, unit of C05) -> effectful stub: PRECONDITION 'packs warmed up'"),
+         ],
+         contract="\n    // (implicit obligation: the selected packs are warmed up before they are read)\n"),
+]
+
+# repair index re-reads pack headers from the (cold) store: the warm-up of exactly these packs must come first.  The unit lives
+# in C15's spec (it also decides the dry-run half of that function) and is verified as part of this check as well.
+SATELLITES = [("C15", ["RewriteOptions", "RepairSnapshotsOptions", "ConfigOptions", "TreeModifier", "repair_index_dry_run"])]
+
 KANI = [
     Harness(M + "c16_write_bytes", functions=[HC + "write_bytes"], expect_stubs=1),
     Harness(M + "c16_remove", functions=[HC + "remove"], expect_stubs=1),
@@ -122,7 +156,7 @@ KANI_ASSUMPTIONS = [
 META = {
     "not_covered": [
         "repair hot/cold: get_missing_files (which files count as missing: closures, iterator adapters) and copy (rayon) -- stubs in the correct_missing_files unit",
-        "warm-up call-site ordering inside restore / prune / check / repair index",
+        "warm-up before the repack reads of prune_repository (its call is the statement after the guard; the repack branch is elided in the units) and WHICH packs RestorePlan::to_packs / the read-data subset select (iterator chains); the ordering at the call sites of restore, check --read-data and repair index IS decided",
         "equivalence with a single-store repository beyond single backend calls",
     ],
 }
